@@ -1,5 +1,7 @@
 """Runner for in-process harnesses built on engine/cxx/verif_pbt.h (rapidcheck + libFuzzer)."""
 import glob
+
+import numpy as np
 import json
 import os
 import re
@@ -45,6 +47,17 @@ def crash_signature(stderr_text):
     return "crash:unclassified"
 
 
+def brief(stderr_text, limit=2500):
+    """The lines of a sanitizer/assert report that matter, with stack frames shortened."""
+    keep = []
+    for l in stderr_text.split("\n"):
+        if "runtime error" in l or "SUMMARY" in l or "ERROR: AddressSanitizer" in l or "assertion failed" in l or "terminate called" in l or "what():" in l or "FATAL" in l:
+            keep.append(l[:300])
+        elif re.match(r"\s*#[0-5] ", l):
+            keep.append(l[:160])
+    return "\n".join(keep)[:limit]
+
+
 def _env():
     e = dict(os.environ)
     e.update(SAN_ENV)
@@ -69,8 +82,8 @@ def replay_file(exe, path, known):
         return ("known" if r.returncode == 3 else "fail"), m.group(1), m.group(2)
     sig = crash_signature(r.stderr)
     if sig in known:
-        return "known", sig, r.stderr[-1500:]
-    return "crash", sig, r.stderr[-1500:]
+        return "known", sig, brief(r.stderr)
+    return "crash", sig, brief(r.stderr)
 
 
 def _run_job(exe, job, known, workdir):
@@ -91,7 +104,8 @@ def _run_job(exe, job, known, workdir):
                 res = json.load(f)
         except ValueError:
             res = None
-    return {"job": job, "rc": r.returncode, "stderr": r.stderr[-20000:], "result": res, "out": out, "wall": time.time() - t0}
+    sig = crash_signature(r.stderr) if r.returncode not in (0, 1) else ""
+    return {"job": job, "rc": r.returncode, "stderr": brief(r.stderr), "crash_sig": sig, "result": res, "out": out, "wall": time.time() - t0}
 
 
 def run_unit(pid, meta, tier, seed, replay=None):
@@ -154,7 +168,14 @@ def run_unit(pid, meta, tier, seed, replay=None):
             entry = res["props"][0]
             pp["evaluations"] += entry["evaluations"]
             pp["nontrivial"] += entry["nontrivial"]
-            pp["distinct_nontrivial"] += entry["distinct_nontrivial"]  # shards use different seeds; overlap is negligible but see rule
+            dfile = r["out"] + ".distinct"
+            if os.path.exists(dfile):
+                pp.setdefault("hashes", []).append(np.fromfile(dfile, dtype=np.uint64))
+                os.unlink(dfile)
+            else:
+                pp["distinct_nontrivial"] += entry["distinct_nontrivial"]
+            if entry.get("distinct_saturated"):
+                pp["notes"].append("distinct-case set saturated at 4M per process: distinct_nontrivial is a lower bound")
             for k, v in entry["labels"].items():
                 pp["labels"][k] = pp["labels"].get(k, 0) + v
             for k, v in entry["exclusions"].items():
@@ -179,7 +200,7 @@ def run_unit(pid, meta, tier, seed, replay=None):
                     out.notes.append("sub-property %s: a failing case did not reproduce on replay (%s); not reported" % (job["prop"], path))
         if r["rc"] not in (0, 1):
             # the harness process died: sanitizer report, assert, uncaught exception
-            sig = crash_signature(r["stderr"])
+            sig = r["crash_sig"]
             cc = r["out"] + ".crashcase"
             if sig in known:
                 out.known_hits[sig] = out.known_hits.get(sig, 0) + 1
@@ -192,9 +213,11 @@ def run_unit(pid, meta, tier, seed, replay=None):
                     path = save_violation_case(pid, "prop=%s\nnote=crash without captured case\nstderr=%s\n" % (job["prop"], r["stderr"][-2000:].replace("\n", "\\x0a")))
                 if sig not in seen_sigs:
                     seen_sigs.add(sig)
-                    tail = [l for l in r["stderr"].split("\n") if "runtime error" in l or "SUMMARY" in l or "assertion failed" in l or "#0 " in l or "#1 " in l or "#2 " in l]
-                    out.add_violation(sig, " | ".join(tail[:6]), path)
+                    out.add_violation(sig, r["stderr"].replace("\n", " | "), path)
 
+    for p in per_prop.values():
+        if p.get("hashes"):
+            p["distinct_nontrivial"] += int(np.unique(np.concatenate(p.pop("hashes"))).size)
     out.evaluations = sum(p["evaluations"] for p in per_prop.values())
     out.distinct_nontrivial = sum(p["distinct_nontrivial"] for p in per_prop.values())
     for name, p in per_prop.items():
